@@ -1,6 +1,7 @@
 package props
 
 import (
+	"encoding/hex"
 	"encoding/json"
 	"fmt"
 	"math/big"
@@ -12,6 +13,8 @@ import (
 	"github.com/bnb-chain/tss-lib/v2/common"
 	eckg "github.com/bnb-chain/tss-lib/v2/ecdsa/keygen"
 	edkg "github.com/bnb-chain/tss-lib/v2/eddsa/keygen"
+	"github.com/bnb-chain/tss-lib/v2/crypto/commitments"
+	"github.com/bnb-chain/tss-lib/v2/tss"
 
 	"verif/harness/ev"
 	"verif/harness/obs"
@@ -33,12 +36,82 @@ type FaultCase struct {
 	DupParams   int   `json:"dup_params,omitempty"`   // dev brings the same pre-parameters as party DupParams (ECDSA keygen / resharing-new)
 	AfterAbort  bool  `json:"after_abort,omitempty"`  // keep delivering to parties that reported an error (C06)
 	RawWire     string `json:"raw_wire,omitempty"`    // hex: replace the wire bytes of the selected message by these bytes (C06)
-	AsFrom      int   `json:"as_from,omitempty"`      // C06: hand the selected message over as if sent by this party index (may be out of range)
+	AsFrom      int   `json:"as_from,omitempty"`      // C06: hand the selected message over as if sent by party index AsFrom-1000000 (may be out of range)
+	Craft       *CraftSpec `json:"craft,omitempty"`   // C06: crafted relations across messages
+}
+
+// CraftSpec describes a deviating party that is consistent across two messages (e.g. commits to a degenerate tuple and opens it).
+type CraftSpec struct {
+	Kind   string `json:"kind"` // offcurve | identity | torsion | short | long | nothing | zeros | huge | sumzero
+	CType  string `json:"c_type,omitempty"`
+	CField string `json:"c_field,omitempty"`
+	DType  string `json:"d_type"`
+	DField string `json:"d_field"`
+	Arity  int    `json:"arity,omitempty"`
+}
+
+// craftedOpening returns the de-commitment [r, values...] of a crafted commitment.
+func craftedOpening(c *CraftSpec, ecdsa bool) []*big.Int {
+	r := new(big.Int).Lsh(big.NewInt(0x5151), 240)
+	vals := []*big.Int{}
+	n := c.Arity
+	if n == 0 {
+		n = 2
+	}
+	switch c.Kind {
+	case "offcurve":
+		for i := 0; i < n; i++ {
+			vals = append(vals, big.NewInt(int64(i+1)))
+		}
+	case "identity":
+		for i := 0; i < n; i += 2 {
+			if ecdsa {
+				vals = append(vals, big.NewInt(0), big.NewInt(0))
+			} else {
+				vals = append(vals, big.NewInt(0), big.NewInt(1))
+			}
+		}
+	case "torsion":
+		t := obs.Ed.Torsion()
+		for i := 0; i < n; i += 2 {
+			p := t[1+(i/2)%7]
+			vals = append(vals, p.X, p.Y)
+		}
+	case "short":
+		g := obs.Secp.Gen()
+		if !ecdsa {
+			g = obs.Ed.Gen()
+		}
+		all := []*big.Int{g.X, g.Y, g.X, g.Y, g.X, g.Y}
+		vals = all[:n-1]
+	case "long":
+		g := obs.Secp.Gen()
+		if !ecdsa {
+			g = obs.Ed.Gen()
+		}
+		for i := 0; i < n+2; i += 2 {
+			vals = append(vals, g.X, g.Y)
+		}
+	case "nothing":
+	case "zeros":
+		for i := 0; i < n; i++ {
+			vals = append(vals, big.NewInt(0))
+		}
+	case "huge":
+		for i := 0; i < n; i++ {
+			vals = append(vals, new(big.Int).Lsh(big.NewInt(1), 20000))
+		}
+	}
+	return append([]*big.Int{r}, vals...)
 }
 
 func (fc FaultCase) ID() string {
-	return fmt.Sprintf("%s|n%d.%d.%d|dev%d|%s>%d|%s|m%d|ws%v|dp%d|aa%v|%s|%d|%s", fc.Sc.Proto, fc.Sc.N, fc.Sc.NewN, fc.Sc.T, fc.Dev, fc.Type, fc.To, fc.Spec,
-		fc.Mirror, fc.WrongSecret, fc.DupParams, fc.AfterAbort, fc.Sc.Strategy, fc.Sc.Seed, shortHex(fc.RawWire))
+	craft := ""
+	if fc.Craft != nil {
+		craft = fc.Craft.Kind + ":" + fc.Craft.DType
+	}
+	return fmt.Sprintf("%s|n%d.%d.%d|dev%d|%s>%d|%s|m%d|ws%v|dp%d|aa%v|%s|%d|%s|from%d|%s", fc.Sc.Proto, fc.Sc.N, fc.Sc.NewN, fc.Sc.T, fc.Dev, fc.Type, fc.To, fc.Spec,
+		fc.Mirror, fc.WrongSecret, fc.DupParams, fc.AfterAbort, fc.Sc.Strategy, fc.Sc.Seed, shortHex(fc.RawWire), fc.AsFrom, craft)
 }
 
 func shortHex(s string) string {
@@ -119,6 +192,65 @@ func execFault(fc FaultCase) (*FaultOutcome, error) {
 	rng := rand.New(rand.NewSource(sc.Seed + 31337))
 	cache := map[string][]byte{}
 	s.Mutate = func(it *pump.Item) []byte {
+		if fc.Craft != nil && it.From.G == fc.Dev {
+			c := fc.Craft
+			if c.Kind == "sumzero" {
+				if it.Msg.Type != c.DType {
+					return nil
+				}
+				q := tss.S256().Params().N
+				sum := big.NewInt(0)
+				seen := map[int]bool{}
+				for _, o := range s.All {
+					if o.Msg.Type == c.DType && o.From.G != fc.Dev && !seen[o.From.G] {
+						b, err := tamper.Get(o.Wire, c.DField, 0)
+						if err != nil {
+							return nil
+						}
+						seen[o.From.G] = true
+						sum.Add(sum, new(big.Int).SetBytes(b))
+					}
+				}
+				if len(seen) != len(s.Nodes)-1 {
+					out.Note = "not every other party's value was visible yet"
+					return nil
+				}
+				v := new(big.Int).Neg(sum)
+				v.Mod(v, q)
+				w, _, err := tamper.Apply(it.Wire, tamper.Spec{Field: c.DField, Kind: "set", Hex: hex.EncodeToString(v.Bytes())}, rng, nil)
+				if err != nil {
+					return nil
+				}
+				out.Applied, out.Changed = true, true
+				consumed[it.To.G] = true
+				return w
+			}
+			open := craftedOpening(c, sc.Proto.IsEcdsa())
+			switch it.Msg.Type {
+			case c.CType:
+				cm := commitments.NewHashCommitmentWithRandomness(open[0], open[1:]...)
+				w, _, err := tamper.Apply(it.Wire, tamper.Spec{Field: c.CField, Kind: "set", Hex: hex.EncodeToString(cm.C.Bytes())}, rng, nil)
+				if err != nil {
+					out.Note = "craft: " + err.Error()
+					return nil
+				}
+				return w
+			case c.DType:
+				var hs []string
+				for _, v := range open {
+					hs = append(hs, hex.EncodeToString(v.Bytes()))
+				}
+				w, _, err := tamper.Apply(it.Wire, tamper.Spec{Field: c.DField, Kind: "setlist", Hex: strings.Join(hs, ",")}, rng, nil)
+				if err != nil {
+					out.Note = "craft: " + err.Error()
+					return nil
+				}
+				out.Applied, out.Changed = true, true
+				consumed[it.To.G] = true
+				return w
+			}
+			return nil
+		}
 		if fc.Type == "" || it.From.G != fc.Dev || it.Msg.Type != fc.Type {
 			return nil
 		}
@@ -137,7 +269,7 @@ func execFault(fc FaultCase) (*FaultOutcome, error) {
 		var w []byte
 		switch {
 		case fc.RawWire != "":
-			w = mustHex(fc.RawWire)
+			w = rawWire(fc.RawWire, it, s)
 			out.Changed = true
 		case fc.Mirror > 0:
 			// the deviating party sends the victim's message of the same type as its own
@@ -182,7 +314,8 @@ func execFault(fc FaultCase) (*FaultOutcome, error) {
 	if fc.AsFrom != 0 {
 		s.FromOverride = func(it *pump.Item) (int, bool) {
 			if it.From.G == fc.Dev && it.Msg.Type == fc.Type {
-				return fc.AsFrom, true
+				out.Applied = true
+				return fc.AsFrom - 1000000, true
 			}
 			return 0, false
 		}
@@ -258,6 +391,46 @@ func shortStr(s string, n int) string {
 		return s[:n]
 	}
 	return s
+}
+
+// rawWire builds replacement wire bytes: "empty", "othertype" (another message type's bytes), "mutate:<seed>"
+// (seeded truncation / bit flips / random bytes), or plain hex.
+func rawWire(spec string, it *pump.Item, s *pump.Session) []byte {
+	switch {
+	case spec == "empty":
+		return []byte{}
+	case spec == "othertype":
+		for _, o := range s.All {
+			if o.Msg.Type != it.Msg.Type {
+				return o.Wire
+			}
+		}
+		return []byte{0x0a, 0x03, 'f', 'o', 'o'}
+	case strings.HasPrefix(spec, "mutate:"):
+		var seed int64
+		fmt.Sscanf(spec[7:], "%d", &seed)
+		r := rand.New(rand.NewSource(seed))
+		w := append([]byte(nil), it.Wire...)
+		switch r.Intn(4) {
+		case 0: // truncate
+			if len(w) > 1 {
+				w = w[:r.Intn(len(w))]
+			}
+		case 1: // flip a few bits
+			for k := 0; k < 1+r.Intn(4) && len(w) > 0; k++ {
+				w[r.Intn(len(w))] ^= byte(1 << uint(r.Intn(8)))
+			}
+		case 2: // random bytes of the same length
+			r.Read(w)
+		case 3: // duplicate a slice in the middle (length fields no longer match)
+			if len(w) > 8 {
+				i := r.Intn(len(w) - 4)
+				w = append(w[:i], append(append([]byte(nil), w[i:i+4]...), w[i:]...)...)
+			}
+		}
+		return w
+	}
+	return mustHex(spec)
 }
 
 func mustHex(s string) []byte {
